@@ -609,7 +609,7 @@ impl<T: Clone + Eq + Debug + Default> WrappedBlock<T> {
                 self.wslen,
                 self.line
             );
-            if c.is_whitespace() && self.wordlen > 0 {
+            if c.is_whitespace() && !self.word.is_empty() {
                 self.flush_word(ws_mode)?;
             }
 
@@ -669,7 +669,7 @@ impl<T: Clone + Eq + Debug + Default> WrappedBlock<T> {
                 } else {
                     // If not preserving whitespace, everything is collapsed,
                     // and the line won't start with whitespace.
-                    if self.line.len > 0 && self.wslen == 0 {
+                    if !self.line.is_empty() && self.wslen == 0 {
                         self.spacetag = Some(tag.clone());
                         self.wslen = 1;
                     }
